@@ -126,9 +126,14 @@ func (i *Interface) checkStoredPermission(db *Controller, dbName, dbKey string) 
 
 	m, err := db.GetMeta(dbKey)
 	if err != nil {
-		// The record is gone or the storage failed: the cache only serves
-		// outdated data, as documented for the CacheSize option.
-		return nil //nolint:nilerr
+		if errors.Is(err, ErrNotFound) {
+			// The record is gone: the cache only serves outdated data, as
+			// documented for the CacheSize option.
+			return nil
+		}
+		// The flags of the stored record cannot be read: do not fall back to
+		// the flags of the cached copy.
+		return err
 	}
 	if !m.CheckPermission(i.options.Local, i.options.Internal) {
 		i.cache.Remove(dbName + ":" + dbKey)
